@@ -62,7 +62,7 @@ pub fn supervise(worker: JoinHandle<()>, cpu_budget_s: u64) -> i32 {
     let me = self_tid().unwrap_or_default();
     let ticks_per_s = 100u64; // USER_HZ on Linux
     let mut last_progress = PROGRESS.load(Ordering::Relaxed);
-    let mut cpu_at_progress: u64 = tasks().iter().map(|t| t.cpu_ticks).sum();
+    let mut cpu_at_progress: u64 = tasks().iter().filter(|t| t.tid != me).map(|t| t.cpu_ticks).sum();
     let mut quiet_checks = 0u32;
     let mut last_cpu = cpu_at_progress;
     loop {
@@ -75,14 +75,15 @@ pub fn supervise(worker: JoinHandle<()>, cpu_budget_s: u64) -> i32 {
         // sample every 50 ms, but notice the end of a short scenario within a millisecond
         let t = std::time::Instant::now();
         while t.elapsed() < Duration::from_millis(50) && !worker.is_finished() {
-            std::thread::sleep(Duration::from_micros(if t.elapsed() < Duration::from_millis(5) { 200 } else { 1000 }));
+            std::thread::sleep(Duration::from_micros(if t.elapsed() < Duration::from_millis(5) { 200 } else { 2000 }));
         }
         if worker.is_finished() {
             continue;
         }
         let p = PROGRESS.load(Ordering::Relaxed);
         let ts = tasks();
-        let cpu: u64 = ts.iter().map(|t| t.cpu_ticks).sum();
+        // the supervisor's own polling is not the program's work: its thread is left out of every CPU sum
+        let cpu: u64 = ts.iter().filter(|t| t.tid != me).map(|t| t.cpu_ticks).sum();
         if p != last_progress {
             last_progress = p;
             cpu_at_progress = cpu;
@@ -114,7 +115,7 @@ pub fn supervise(worker: JoinHandle<()>, cpu_budget_s: u64) -> i32 {
                 // confirm on a second sample that nothing moved
                 std::thread::sleep(Duration::from_millis(200));
                 let ts2 = tasks();
-                let cpu2: u64 = ts2.iter().map(|t| t.cpu_ticks).sum();
+                let cpu2: u64 = ts2.iter().filter(|t| t.tid != me).map(|t| t.cpu_ticks).sum();
                 let still = ts2
                     .iter()
                     .filter(|t| t.tid != me)
